@@ -13,6 +13,7 @@ import shutil
 
 from hypothesis import strategies as st
 
+from vf import pins
 from vf.core import VERIF_DIR, HarnessError, HypPart, Oracle
 from vf.gen import dbenum
 from vf.gen import keys as K
@@ -819,4 +820,5 @@ def calibrate(ctx) -> None:
 
 def parts(ctx):
     run = functools.partial(_run, ctx.work)
-    return [HypPart("image", _case(ctx.tier == "thorough"), run, {"quick": 480, "thorough": 16000})]
+    return [HypPart("image", _case(ctx.tier == "thorough"), run, {"quick": 480, "thorough": 16000}),
+            pins.part(["hab"], 30)]  # initial load sizes per boot memory
